@@ -58,7 +58,22 @@ def run(ctx: Ctx) -> None:
         holder["tokens"] = [models.token("COMMENT", raw1, line=2), models.token("CCOMMENT", raw2, line=5)]
         return inst, ["<text>"], {}
 
-    outs = I.explore("parser.Parser.parse", make)
+    # concrete representative first: interior runs of blanks, a tab and (in /* */) a line break are part of the
+    # comment's text; only the whitespace around the whole comment goes
+    sym = {"raw1": raw1, "raw2": raw2}
+    raw1, raw2 = "#  name:   see\tticket 42  ", "/* primary   key\n   of the\ttable */"
+    outs_c = I.explore("parser.Parser.parse", make)
+    cd_c = holder["inst"].attrs.get("comments_dict")
+    want_c = {2: raw1.strip(), 5: raw2}
+    good_c = len(outs_c) == 1 and outs_c[0].kind == "return" and isinstance(cd_c, dict) and {k: (v if isinstance(v, str) else (v.describe() if hasattr(v, "describe") else repr(v))) for k, v in dict(cd_c).items()} == want_c
+    ctx.check(good_c, "K1", "comment buffer -> comments_dict (texts with interior blanks, tab, line break)", repo.loc("parser", repo.func("parser.Parser.parse")), "interior whitespace kept", f"comments_dict = {cd_c!r}, expected {want_c!r}: the stored comment is not the source text (only surrounding whitespace may be stripped); outcome {outs_c[0].kind} {outs_c[0].exc or ''}")
+    raw1, raw2 = sym["raw1"], sym["raw2"]
+    try:
+        outs = I.explore("parser.Parser.parse", make)
+    except AnalysisError:
+        if good_c:
+            raise
+        outs = outs_c  # the concrete representative already shows the comment text is rewritten
     cd = holder["inst"].attrs.get("comments_dict")
     want = {2: SStr(["# ", Atom("COMMENT_one", excludes=frozenset("\n"), free=True, last=models.ALNUM)]), 5: raw2}
     good = len(outs) == 1 and outs[0].kind == "return" and isinstance(cd, dict) and dict(cd) == want
